@@ -82,8 +82,13 @@ class LRUCacheStore(Store):
         res = self._store.fetch_blob(key)
         _logger.debug(f"Fetching key {key} completed: {type(res)}")
         # A missing blob also comes back as None: only cache what the store really holds.
-        if res is not None or self._store.has_blob(key):
-            self._cache.put(key, res)
+        if res is None:
+            if not self._store.has_blob(key):
+                return None
+            # The blob is there. It may have been stored (by another process) after the fetch above answered None
+            # for a missing blob: read it again rather than remember that None.
+            res = self._store.fetch_blob(key)
+        self._cache.put(key, res)
         return res
 
     def store_blob(self, key: PyHash, blob: Any, codec: Optional[ProtocolRef]) -> None:
